@@ -57,13 +57,15 @@ type modelState struct {
 	lastNow        *TimeV
 	branchMemo     map[int]bool
 	renderModel    map[string]interface{}
+	fpSeq          int
+	forkSeq        int
 }
 
 func (ex *Exec) modelReset() {
-	ex.protectedMaps = map[*MapV]string{}
 	ex.nowCalls = 0
 	ex.lastNow = nil
 	ex.branchMemo = nil
+	ex.fpSeq = 0
 }
 
 func (ex *Exec) modelZero(t types.Type) value {
@@ -238,6 +240,28 @@ func init() {
 	})
 	reg("strings.Contains", func(ex *Exec, fr *frame, pos token.Pos, args []value) value {
 		return ex.b.Ge(ex.strIndexOf(args[0].(*Str), args[1].(*Str)), ex.b.I64(0))
+	})
+	reg("strings.IndexAny", func(ex *Exec, fr *frame, pos token.Pos, args []value) value {
+		s, chars := args[0].(*Str), args[1].(*Str)
+		ex.needBytes(s, chars)
+		cs, ok := chars.concrete()
+		if !ok {
+			panic(ex.unsupported("strings.IndexAny with symbolic chars"))
+		}
+		for i := 0; i < len(cs); i++ {
+			if cs[i] >= 0x80 {
+				panic(ex.unsupported("strings.IndexAny with non-ASCII chars"))
+			}
+		}
+		r := ex.b.I64(-1)
+		for i := len(s.b) - 1; i >= 0; i-- {
+			var any []*smt.Term
+			for k := 0; k < len(cs); k++ {
+				any = append(any, ex.b.Eq(s.b[i], ex.b.I64(int64(cs[k]))))
+			}
+			r = ex.b.Ite(ex.b.Or(any...), ex.b.I64(int64(i)), r)
+		}
+		return r
 	})
 	reg("strings.IndexByte", func(ex *Exec, fr *frame, pos token.Pos, args []value) value {
 		return ex.strIndexOf(args[0].(*Str), &Str{b: []*smt.Term{args[1].(*smt.Term)}})
